@@ -1320,6 +1320,11 @@ class Interp:
         return self._comp(e, st, lambda: self.new(st, "set", e, elem=self.eval(e.elt, st)))
 
     def e_GeneratorExp(self, e, st):
+        # over a fully known container of a few items (the columns of `zip(*records)`), item by item: the results
+        # keep their positions, so that unpacking the generator gives every name its own column
+        un = self._comp_unrolled(e, st) if len(e.generators) == 1 and not e.generators[0].ifs else None
+        if un is not None and not any(f for _, _, f in un):
+            return self.new(st, "list", e, slots={i: v for i, (_, v, _) in enumerate(un)}, meta={"genexp": True})
         return self._comp(e, st, lambda: self.new(st, "list", e, elem=self.eval(e.elt, st), meta={"genexp": True}))
 
     def e_DictComp(self, e, st):
@@ -1382,6 +1387,21 @@ class Interp:
             else:
                 kwargs[k.arg] = v
         co = self.obj(st, calleev) if calleev is not None else None
+        # zip(*records) with records a list of fixed-arity tuples: the transposition -- column i is a list of the
+        # i-th fields (a tuple of k lists; without this every column would be the join of all fields)
+        if co is not None and co.kind == "external" and co.meta.get("external") == "builtins.zip" and len(e.args) == 1 and isinstance(e.args[0], ast.Starred) and not e.keywords and len(args) == 1:
+            ro = self.obj(st, args[0])
+            if ro is not None and ro.kind == "tuple" and ro.elem is None:
+                keys = sorted(k for k in ro.slots if isinstance(k, int))
+                if keys and keys == list(range(len(keys))) and len(keys) == len(ro.slots) and len(keys) <= 16:
+                    cols = {}
+                    for i in keys:
+                        self.iter_ctx.append(("zipcol", i))  # one allocation address per column
+                        try:
+                            cols[i] = self.new(st, "list", e.args[0], elem=ro.slots[i])
+                        finally:
+                            self.iter_ctx.pop()
+                    return self.new(st, "tuple", e, slots=cols)
         # 1. package function / lambda / closure held in a value
         target = None
         if co is not None and co.kind == "func" and co.meta.get("func") is not None:
